@@ -314,6 +314,18 @@ def mon_C06(st):
         for t in ps.tasks.values():
             if t.nX > 1:
                 out.append(("several-CancelledErrors", t.X, f"pool {pi} task {t.tid} observed {t.nX}"))
+    # `cancel(id)` from inside the task's own callbacks: the task is already cancelled resp. ended, the call must be
+    # rejected with the matching error (the harness makes that call at the start of every callback)
+    for pi, ps in enumerate(st.pools):
+        for t in ps.tasks.values():
+            for (j, r, c, e, reg) in t.cc:
+                if reg != "C":
+                    out.append(("cancel-of-already-cancelled-task-succeeded", j,
+                                f"pool {pi} task {t.tid}: cancel(id) inside its cancel callback was answered {reg}"))
+            for (j, r, c, e, reg) in t.ec:
+                if reg != "E":
+                    out.append(("cancel-of-ended-task-not-rejected", j,
+                                f"pool {pi} task {t.tid}: cancel(id) inside its end callback was answered {reg}"))
     named = {}
     other_cancel = set()
     for j, toks in enumerate(st.toks):
@@ -353,6 +365,10 @@ def mon_C06(st):
                         and t.S is not None and t.S < j and not finished_before(t, j)
                         and not any(x[0] <= j for x in t.cc) and not any(x[0] <= j for x in t.ec) and t.X is None):
                     out.append(("cancellation-not-delivered", j, f"pool {pi} task {i} never observed CancelledError"))
+                # a task that has already observed its cancellation is filed as cancelled: naming it again must fail
+                if t is not None and ((t.X is not None and t.X < j) or any(x[0] < j for x in t.cc)) and not finished_before(t, j - 1):
+                    out.append(("cancel-of-already-cancelled-task-succeeded", j,
+                                f"pool {pi} task {i} had observed CancelledError before step {j}"))
                 # cancelled before its first step: the worker must never begin
                 if t is not None and t.S is not None and t.S > j and t.first_seen <= j:
                     out.append(("cancelled-before-its-start-yet-started", t.S,
@@ -409,6 +425,15 @@ def mon_C07(st):
                         and not finished_before(t, j) and not any(x[0] <= j for x in t.cc)
                         and not any(x[0] <= j for x in t.ec) and t.X is None):
                     out.append(("unfinished-task-not-cancelled", j, f"pool {pi} group {r.name} task {tid}"))
+    # once all work is released and the loop is idle, no task of a pool whose groups were cancelled is still running
+    if qj is not None and not trigger_holds("unlock_while_closing", st):
+        for pi, ps in enumerate(st.pools):
+            if pi >= len(st.obs[qj]["pools"]) or not any(r.cancelled_at is not None and r.cancelled_at <= qj for r in ps.reqs):
+                continue
+            po = st.obs[qj]["pools"][pi]
+            if po["n"] != 0:
+                out.append(("task-still-running-after-group-cancel", qj,
+                            f"pool {pi}: all work released and loop idle, yet running={po['n']}"))
     # a worker that cancels its own group (or everything) at its start and then awaits must itself be cancelled
     if qj is not None:
         for pi, ps in enumerate(st.pools):
@@ -588,7 +613,13 @@ def mon_C09(st):
                 out.append(("wrong-rejection", j, f"pool {pi}: {k} -> {o['r']}, documented: {exp}"))
             if exp is None and not o["r"].startswith("name:"):
                 out.append(("acceptable-request-rejected", j, f"pool {pi}: {k} -> {o['r']}"))
-        elif k == "set_size":
+        if k == "start" and o["r"].startswith("name:") and ps.kind == "simple" and not ps.has_hooks:
+            n_ok = sum(1 for jj in range(j) if st.toks[jj][:1] == ["on"] and len(st.toks[jj]) > 2 and int(st.toks[jj][1]) == pi
+                       and st.toks[jj][2] == "start" and st.obs[jj] is not None and st.obs[jj]["r"].startswith("name:"))
+            if o["r"][5:] != f"start-group-{n_ok}":
+                out.append(("rejected-request-left-a-trace", j,
+                            f"pool {pi}: accepted start() number {n_ok} was named {o['r'][5:]}: a rejected one consumed a name"))
+        if k == "set_size":
             if int(toks[3]) < 0 and o["r"] != "err:ValueError":
                 out.append(("negative-size-accepted", j, f"pool {pi}: {o['r']}"))
             if int(toks[3]) >= 0 and o["r"] != "ok":
@@ -780,6 +811,13 @@ def mon_C12(st, loopexc=None):
                 failed = [t.tid for t in ps.tasks.values() if t.E is not None and t.E < j0 and finished_before(t, j0 - 1)]
                 if failed:
                     out.append(("flush-swallowed-a-task-exception", jc, f"pool {pi}: tasks {failed} had raised"))
+    # the slot of a task whose coroutine or callback raised is still released
+    if not trigger_holds("unlock_while_closing", st):
+        for (kind, j, detail) in mon_C02(st):
+            if kind in ("task-never-accounted", "capacity-lost"):
+                pi = int(detail.split()[1].rstrip(":"))
+                if pi < len(st.pools) and raising_anywhere(st, st.pools[pi]):
+                    out.append(("slot-of-failed-task-lost", j, detail))
     for name in (loopexc or []):
         if name not in ("Boom",):
             out.append(("foreign-exception-in-a-pool-task", len(st.toks) - 1, name))
